@@ -19,6 +19,8 @@ def run(ctx):
     rng = ctx.rng
     ngraphs = ctx.n(25, 250)
     ntargeted = ctx.n(10, 60)
+    if not camp.usable:          # instrumented runs are meaningless on an engine without the traced statements: real-signal scenarios only
+        ngraphs = ntargeted = 0
     for gi in range(ngraphs + ntargeted):
         fam, nodes, edges = engine_corr.gen_graph(rng, maxn=8)
         n = len(nodes)
@@ -72,7 +74,8 @@ def run(ctx):
                 ctx.fail("intr:leak", "threads alive after the interrupted run: %r" % run_.leaked, case)
     camp.eval_model()
     engine_corr.file_findings(ctx, camp, {"C17", "C07"})
-    spawn_window(ctx, camp)
+    if camp.usable:
+        spawn_window(ctx, camp)
     real_signal(ctx)
 
 
@@ -142,6 +145,13 @@ def real_signal(ctx):
         chain = trial % 3 == 0          # a linear chain interrupted early: no later link may start (beyond one per worker)
         if chain:
             ncalls, workers, k = 9, rng.choice([1, 2]), rng.choice([1, 2, 3])
+        # a backlog of ready calls at the moment of the interrupt, under every combination of scheduler and error limit: none of the
+        # waiting calls may start (beyond the one per worker that was already past its stop test)
+        backlog = {2: ("random", None), 5: ("default", 1000), 8: ("random", 0), 11: (None, None)}.get(trial)
+        run_kw = {}
+        if backlog:
+            ncalls, workers, k, chain, long_call = 60, 2, rng.choice([0, 1]), False, 0
+            run_kw = {"scheduler": backlog[0], "max_errors": backlog[1]}
         lock = threading.Lock()
         log, state = [], {"n": 0, "sig": None}
 
@@ -162,6 +172,7 @@ def real_signal(ctx):
                             names.append(f_.f_code.co_name)
                             f_ = f_.f_back
                         if "join" in names and "run_function_on_graph" in names:
+                            state["parked"] = True
                             break
                         time.sleep(0.005)
                     time.sleep(0.02)
@@ -169,7 +180,7 @@ def real_signal(ctx):
                     signal.pthread_kill(threading.main_thread().ident, signal.SIGINT)
                     if long_call:
                         time.sleep(long_call)     # the interrupted call itself takes long: run must still wait for it
-                time.sleep(0.02)
+                time.sleep(0.08 if backlog else 0.02)
                 with lock:
                     log.append(("end", i, time.monotonic()))
                 return i
@@ -177,7 +188,7 @@ def real_signal(ctx):
         p = uberjob.Plan()
         calls = []
         for i in range(ncalls):
-            args = [rng.choice(calls)] if calls and rng.random() < 0.5 else []
+            args = [rng.choice(calls)] if calls and rng.random() < 0.5 and not backlog else []
             if chain:
                 args = calls[-1:]
             calls.append(p.call(mk(i), *args))
@@ -192,7 +203,7 @@ def real_signal(ctx):
             return ltrace
 
         def ltrace(frame, event, arg):
-            if event == "line" and frame.f_lineno == sites.lines["setstop"] + 1 and not tstop:
+            if event == "line" and frame.f_lineno == sites.lines.get("setstop", -9) + 1 and not tstop:
                 with lock:     # the line after `stop = True`: the flag is set; no call function may begin after this
                     tstop.append(len(log))
             return ltrace
@@ -200,7 +211,7 @@ def real_signal(ctx):
         sys.settrace(tracer)
         try:
             try:
-                uberjob.run(p, output=calls[-1] if chain else calls, max_workers=workers, progress=Progress(lambda: obs))
+                uberjob.run(p, output=calls[-1] if chain else calls, max_workers=workers, progress=Progress(lambda: obs), **run_kw)
                 outcome = "returned"
             except KeyboardInterrupt:
                 outcome = "interrupted"
@@ -211,14 +222,14 @@ def real_signal(ctx):
         finally:
             sys.settrace(None)
         ctx.case(("real-signal", ncalls, workers, k, chain))
-        ctx.count("real_signal_shape", "chain" if chain else "random")
+        ctx.count("real_signal_shape", "chain" if chain else "backlog %r" % (backlog,) if backlog else "random")
         with lock:
             snap = list(log)
         case = {"ncalls": ncalls, "workers": workers, "k": k, "outcome": outcome, "interrupting_call_lasts_seconds": long_call, "log": [(a, b) for a, b, _ in snap],
                 "log_index_when_stop_was_set": tstop}
         starts = [i for kind, i, _ in snap if kind == "start"]
         ends = [i for kind, i, _ in snap if kind == "end"]
-        if outcome.startswith("interrupted") and not tstop:
+        if outcome.startswith("interrupted") and not tstop and not state.get("parked"):
             # the handler never ran: the interrupt landed before the coordinator reached queue.join(), i.e. in the start-up
             # window of finding F6 (reported by spawn_window under its own key) - not what this scenario measures
             ctx.count("signal_landed_in_spawn_window", 1)
@@ -240,6 +251,12 @@ def real_signal(ctx):
             after = [i for kind, i, _ in snap[tstop[0]:] if kind == "start"]
             if len(after) > workers:
                 ctx.fail("signal:late-starts", "%d calls started after the handler set stop (max_workers=%d)" % (len(after), workers), case)
+        if backlog and state["sig"] is not None:
+            # independent of the instrumentation: calls that began more than a second after the signal was sent
+            late = [i for kind, i, t in snap if kind == "start" and t > state["sig"] + 1.0]
+            if len(late) > workers:
+                ctx.fail("signal:late-starts", "%d of %d waiting calls were started more than 1 s after Ctrl-C (scheduler=%r, max_errors=%r, max_workers=%d)"
+                         % (len(late), ncalls, backlog[0], backlog[1], workers), dict(case, scheduler=backlog[0], max_errors=backlog[1]))
         if obs.entered != 1 or obs.exited != 1:
             ctx.fail("signal:observer", "observer entered %d / exited %d times" % (obs.entered, obs.exited), case)
         deadline = time.time() + 2
